@@ -119,7 +119,7 @@ def oracle_c03(chk, rec):
         chk.fail("get_remains_calls() differs from iters*pop_size minus the evaluations made", {**d, "remains": rec.final["remains"], "evaluated": sum(rec.batch_sizes)}, feats(rec, "remains"))
     # the stopping rule, from the user-level parameters
     def met(s):
-        ok = False
+        ok = s["best_fit"] == float("inf")    # without optimal_value the target is +inf: only an infinite fitness reaches it
         if cfg.get("optimal_value") is not None:
             v = sign * s["best_fit"]  # objective value of the best
             if cfg.get("minimization"):
@@ -200,6 +200,14 @@ def oracle_c17(chk, rec):
                     if not isinstance(now, dict) else (now != snap[key]):
                 chk.fail("a statistics entry was altered by a later generation", {**d, "series": key, "generation": k}, feats(rec, "snapshot"))
                 return
+        if rec.g2p_table:
+            for row in range(len(st["population_g"][k])):
+                img = rec.g2p_table.get(rec.gids.m.get(T.key_of(st["population_g"][k][row])))
+                have = rec.pids.m.get(T.key_of(st["population_ph"][k][row]))
+                if img is not None and have is not None and img != have:
+                    chk.fail("a recorded phenotype is not the genotype-to-phenotype image of the genotype recorded in the same slot",
+                             {**d, "generation": k, "slot": row}, feats(rec, "consistent_ph"))
+                    return
         fit = np.asarray(st["fitness"][k])
         i = int(np.argmax(fit))
         if float(st["max_fitness"][k]) != float(fit.max()) or T.key_of(st["max_g"][k]) != T.key_of(st["population_g"][k][i]) or \
@@ -307,6 +315,57 @@ def main(prop: str, tier: str, classes=None) -> int:
                 if float(ft["fitness"]) != float(sign * f(np.asarray([ft["phenotype"]]))[0]) or (cls not in (DifferentialEvolution, jDE, SHAGA) and float(ft["fitness"]) != best):
                     chk.fail("with n_jobs > 1 the reported best fitness is not the objective value of the reported phenotype",
                              dd, {"optimizer": cls.__name__, "clause": "best_parallel"})
+    if prop == "C03":
+        # budget accounting on the parallel evaluation path: every individual handed to the workers is counted once
+        import c16_workers as W
+        from thefittest.optimizers import DifferentialEvolution, GeneticAlgorithm, SHAGA
+        W.DELAYS = 0
+        for cls, kw, f in ((DifferentialEvolution, dict(iters=5, pop_size=10, left_border=-2.0, right_border=2.0, num_variables=3), W.sphere_delayed),
+                           (GeneticAlgorithm, dict(iters=6, pop_size=12, str_len=12), W.onemax_delayed),
+                           (SHAGA, dict(iters=4, pop_size=7, str_len=10), W.onemax_delayed)):
+            for nj in (2, 3, 5):
+                o = cls(fitness_function=f, n_jobs=nj, keep_history=True, random_state=chk.seed + 37, **kw)
+                o.fit()
+                st = o.get_stats()
+                evaluated = sum(len(fv) for fv in st["fitness"])
+                chk.count("parallel_budget_" + cls.__name__)
+                chk.case(("parallel_budget", cls.__name__, nj))
+                if int(o.get_remains_calls()) != kw["iters"] * kw["pop_size"] - evaluated:
+                    chk.fail("get_remains_calls() differs from iters*pop_size minus the evaluations made (n_jobs > 1)",
+                             {"optimizer": cls.__name__, "n_jobs": nj, **{k: v for k, v in kw.items() if k in ("iters", "pop_size")},
+                              "remains": int(o.get_remains_calls()), "evaluated": evaluated}, {"optimizer": cls.__name__, "clause": "remains_parallel"})
+    if prop == "C02":
+        # an objective that returns NaN for some individuals once a finite record exists: numpy's argmax then points at
+        # the NaN, which is not greater than the record, so the record must stay (and must never become NaN)
+        from thefittest.optimizers import GeneticAlgorithm, GeneticProgramming, SelfCGA
+        for cls, extra_kw in ((GeneticAlgorithm, {}), (SelfCGA, {})):
+            for elit in (False, True):
+                state = {"calls": 0}
+
+                def nan_obj(x, _st=state):
+                    x = np.asarray(x, dtype=np.float64)
+                    v = x.sum(axis=1)
+                    _st["calls"] += 1
+                    if _st["calls"] > 2:
+                        v = v.copy()
+                        v[(x[:, 0] == 1) & (x[:, 1] == 0)] = np.nan
+                    return v
+                series = []
+                o = cls(fitness_function=nan_obj, iters=14, pop_size=12, str_len=20, elitism=elit, keep_history=True, random_state=chk.seed + 5,
+                        on_generation=lambda oo: series.append(float(oo._thefittest._fitness)), **extra_kw)
+                try:
+                    o.fit()
+                except Exception as e:  # noqa
+                    chk.fail("a run whose objective returns NaN for some individuals raises", {"optimizer": cls.__name__, "elitism": elit, "error": repr(e)[:200]},
+                             {"optimizer": cls.__name__, "clause": "nan_raises"})
+                    continue
+                chk.count("nan_objective")
+                chk.case(("nan", cls.__name__, elit))
+                bad = next((i for i in range(len(series)) if series[i] != series[i] or (i and series[i] < series[i - 1])), None)
+                if bad is not None:
+                    chk.fail("the best-so-far fitness regressed (or became NaN) on an objective that returns NaN for some individuals",
+                             {"optimizer": cls.__name__, "elitism": elit, "generation": bad + 2, "series": [None if v != v else v for v in series[: bad + 1]]},
+                             {"optimizer": cls.__name__, "clause": "nan_regress"})
     chk.notes.append("runs: 10 optimizer classes x objectives {regular, plateau, all-ties, negative, 1e300-scaled, asymmetric} x elitism x minimization x g2p x init_population + stopping scenarios; each replayed through TFV.Model.EA (oracle = the observed offspring batches) and compared at every generation boundary; distinct = distinct run configurations")
     chk.assumptions.append("objectives are deterministic and NaN-free (NaN breaks numpy's argmax itself)")
     return chk.finish()
